@@ -12,7 +12,7 @@ work=$(mktemp -d /tmp/vsan-XXXXXX)
 log="$work/log"
 case "$id" in
   C01) mscale=0.004; ascale=0.1;; C07) mscale=0.004; ascale=0.1;; C13) mscale=0.003; ascale=0.1;;
-  C14) mscale=0.006; ascale=0.1;; C19) mscale=0.002; ascale=0.05;; C08) mscale=0.003; ascale=0.1;; *) mscale=0.002; ascale=0.05;;
+  C14) mscale=0.006; ascale=0.1;; C19) mscale=0.002; ascale=0.05;; C06) mscale=0.0005; ascale=0.02;; C08) mscale=0.003; ascale=0.1;; *) mscale=0.002; ascale=0.05;;
 esac
 # ---- Miri ----
 mkdir -p "$work/miri"
